@@ -1,15 +1,20 @@
 #!/bin/bash
-# usage: harvest.sh <PROP> <tier> <seed-from> <seed-to>   collect every signature (known or not) seen per seed
-# prints "seed exit unlisted=[...] known=[...]"; used for the false-alarm campaign and for harvesting known findings
+# usage: harvest.sh <PROP> <tier> <seed-from> <seed-to>   collect every signature (known or not) seen per seed.
+# Runs from a private copy of the built binary and a private VERIF_DIR, so it is not disturbed by later edits
+# of /verif/sim or /repo. Prints "seed exit unlisted=[...] known=[...]". Used for the false-alarm campaign.
 P=$1; T=$2; A=$3; B=$4
 cd /verif || exit 2
-./check build >/dev/null || exit 2
+D=/tmp/campaign-$P-$$
+mkdir -p $D
+if [ -z "$NOBUILD" ]; then ./check build >/dev/null || exit 2; fi
+cp sim/target/release/axsim $D/axsim; cp known_findings.json $D/
 for s in $(seq $A $B); do
-  VERIF_SEED=$s VERIF_MAX_MINIMISE=0 VERIF_DIR=/verif ./sim/target/release/axsim run $P $T >/tmp/harvest-$P.log 2>&1; rc=$?
-  python3 - "$P" "$s" "$rc" <<'PY'
+  VERIF_SEED=$s VERIF_MAX_MINIMISE=0 VERIF_DIR=$D ${WORKERS:+VERIF_WORKERS=$WORKERS} $D/axsim run $P $T >$D/log 2>&1; rc=$?
+  python3 - "$D" "$P" "$s" "$rc" <<'PY'
 import json,sys
-p,s,rc=sys.argv[1:4]
-e=json.load(open(f'/verif/evidence/{p}.json'))['coverage']
-print(s, rc, 'unlisted=', sorted(e['unlisted_signatures']), 'known=', sorted(e['known_findings_hit']), 'herr=', e['harness_errors'][:2])
+d,p,s,rc=sys.argv[1:5]
+e=json.load(open(f'{d}/evidence/{p}.json'))['coverage']
+print(p, s, rc, 'unlisted=', sorted(e['unlisted_signatures']), 'known=', len(e['known_findings_hit']), 'herr=', e['harness_errors'][:2], 'audit=', e['determinism_audit'])
 PY
 done
+rm -rf $D
